@@ -634,3 +634,28 @@ mutant('N8-next-does-not-revalidate-unconfirmed', ['C01', 'C02'], [
 mutant('X6-finalize-only-on-success', ['C01', 'C11'], [
     (EX, "        let state = self.evm.finalize();\n        let result = output.map(|output| output.into_speculative(state));", "        let result = output.map(|output| output.into_speculative(self.evm.finalize()));"),
 ], ['|X6|', '|G2|'])
+
+mutant('PAIR-logical-clock-starts-at-zero', ['C02', 'C15'], [
+    (CX, "            logical_clock: AtomicUsize::new(1),", "            logical_clock: AtomicUsize::new(0),"),
+], ['|PAIR|'])
+mutant('PAIR-history-validation-compares-only-newest-origin', ['C07'], [
+    (HI, "        BeneficiaryValidation { valid: self.version == *expected, dependency }", "        BeneficiaryValidation { valid: dependency == expected.latest_dependency(), dependency }"),
+], ['|PAIR|'])
+mutant('PAIR-blocked-history-validation-is-valid', ['C07'], [
+    (HI, "            Err(blocker) => BeneficiaryValidation { valid: false, dependency: Some(blocker) },", "            Err(blocker) => BeneficiaryValidation { valid: true, dependency: Some(blocker) },"),
+], ['|PAIR|'])
+mutant('PAIR-commit-output-end-off-by-one', ['C02'], [
+    (OC, "        CommittedPrefixEnd::new(self.outcomes.len())", "        CommittedPrefixEnd::new(self.outcomes.len().saturating_sub(1))"),
+], ['|PAIR|'])
+mutant('PAIR-into-commit-parts-drops-reward', ['C07', 'C02'], [
+    ('src/beneficiary.rs', "        (self.result_and_state, self.deferred_reward)", "        (self.result_and_state, None)"),
+], ['|PAIR|'])
+mutant('PAIR-dependent-state-starts-offboard', ['C01'], [
+    (T, "        Self { onboard: true, dependency: None }", "        Self { onboard: false, dependency: None }"),
+], ['|PAIR|'])
+mutant('T5-merge-ignores-retention', ['C10'], [
+    (PS, "            self.bundle_state.apply_transitions_and_create_reverts(transition_state, retention);", "            let _ = retention;\n            self.bundle_state.apply_transitions_and_create_reverts(transition_state, BundleRetention::PlainState);"),
+], ['|T5|'])
+mutant('T5-zero-increment-creates-transition', ['C10'], [
+    (PS, "            if balance == 0 {\n                continue;\n            }\n            let mut account = self.load_mut_cache_account(address)?;", "            let mut account = self.load_mut_cache_account(address)?;"),
+], ['|T5|'])
